@@ -478,6 +478,10 @@ def check_case(seed, case_dict, avoid=()):
                         ('symbol', b']'), ('symbol', b'='), ('keyword', b'function'), ('symbol', b'('), ('symbol', b')')]
     while pos + 10 <= limit and outk[pos:pos + 4] == hdr(b'')[:4]:
         name = outk[pos + 4][1] if outk[pos + 4][0] == 'string' else None
+        takes_varargs = outk[pos + 9] == ('symbol', b'...')
+        if takes_varargs:
+            del outk[pos + 9]         # (package._c["name"]=function(...): compared like the plain header below)
+            limit -= 1
         if name is None or outk[pos:pos + 10] != hdr(name):
             raise Violation('malformed package definition in the built code at token %d' % pos, case_dict, 'package-def')
         if name in seen:
@@ -487,6 +491,12 @@ def check_case(seed, case_dict, avoid=()):
                             'unexpected-package')
         seen.append(name)
         f = case['files'][reach[name]]
+        if luagen.chunk_uses_varargs(f.model) and not takes_varargs:
+            raise Violation('package %s uses `...` at its top level (a chunk is a vararg function), but is embedded as '
+                            '`function() ... end`, where `...` does not compile -- package source %s'
+                            % (show(name), show(f.lay.src, 200)), case_dict, 'package-varargs')
+        if luagen.chunk_uses_varargs(f.model):
+            info['chunk_varargs'] = True
         strip = not case['ugl'][reach[name]]
         exp_toks, stripped, strip_not_last = expected_tokens(f, strip)
         info['stripped'] = info['stripped'] or stripped
@@ -545,6 +555,8 @@ def part_graphs(ctx):
             labs.append('after_failed_build_in_same_process')
         if case.get('bare_main'):
             labs.append('main_file_given_by_bare_relative_name')
+        if info.get('chunk_varargs'):
+            labs.append('package_uses_chunk_level_varargs')
         if any(getattr(f, 'harness', False) for f in case['files'].values()):
             labs.append('require_inside_stripped_game_loop')
         if any(b'/' in k and k.split(b'/')[0] in order for k in order):
@@ -644,7 +656,7 @@ def vacuity(total, tier):
                 'use_game_loop', 'site_stmt', 'site_local', 'site_in_function', 'load_default', 'load_abs_cli',
                 'load_abs_env', 'load_rel_dotdot', 'no_final_newline', 'error_missing_file', 'error_bad_option_value',
                 'one_file_two_names_different_option', 'after_failed_build_in_same_process',
-                'main_file_given_by_bare_relative_name',
+                'main_file_given_by_bare_relative_name', 'package_uses_chunk_level_varargs',
                 'package_named_like_a_directory', 'require_inside_stripped_game_loop',
                 'paren_statement_after_stripped_function'):
         if total.classes.get(lab, 0) < 2:
